@@ -139,8 +139,11 @@ class Check:
         # breaks when a counterexample turns up would turn a violation into a harness error)
         try:
             _k, _body, _key = make_replay({"kind": "selftest", "input": None})
-        except Exception:
+        except (KeyError, IndexError, TypeError, AttributeError):
+            _body = None            # the generator needs a real input: nothing to test here
+        except Exception as e:
             _body = None
+            self.harness_error("replay generator of %s fails: %s: %s" % (getattr(make_replay, "__module__", "?"), type(e).__name__, e))
         if _body is not None:
             try:
                 compile(_body, "<replay generator self-test: %s>" % getattr(make_replay, "__module__", "?"), "exec")
